@@ -48,6 +48,7 @@ def modelSearch (F : Fold) (sel : Nat × Nat) (pat : List Nat) (docs : List (Lis
 ops (`f=` simpleFold table, `l=` ToLower table; identity where not listed)
   `var <a.b.c> f=…`                       → the variants of `generateCaseNgrams`, in order
   `cfe <pat> <text> <p> f=… l=…`          → `lower=<toLower(pat)> sz=<byteMatchSz> ok=<0|1>` of matchContent at rune offset p
+  `rq <fold> <runes>`                      → `substring <runes>` | `regexp`: what `RegexpQuery` builds for a literal regexp
   `search <pat> <doc|doc|…> e=<engine's FindAllIndex per doc> f=… l=…` → `s=<results> r=<results>`: the model's results for the trigram selection that
                                             reproduces the implementation's output (the selection depends on shard statistics),
                                             for selection (0,0) if none does; verdict = checkP on the implementation's output
@@ -85,6 +86,13 @@ def handle (line : String) : String :=
         | _, _ => badCase "search impl"
       | _ => badCase "search impl fields"
     | _, _, _, _, _ => badCase "search fields"
+  | ["rq", fold, rs] =>
+    match bool? fold, parseRunes rs with
+    | some fold, some rs =>
+      answer (match regexpQueryLit fold rs with
+        | .substring p => s!"substring {showRunes p}"
+        | .regexp => "regexp")
+    | _, _ => badCase "rq fields"
   | _ => badCase "op"
 
 def main : IO Unit := runLines handle
